@@ -3,6 +3,7 @@ import EudoxiaModel.Model.Dag
 import EudoxiaModel.Model.Profile
 import EudoxiaModel.Model.Trace
 import EudoxiaModel.Model.Gen
+import EudoxiaModel.Model.Csv
 import Driver.Json
 /-! Line-protocol driver: one command per input line, one JSON observation per output line. -/
 open Eudoxia
@@ -139,6 +140,16 @@ def step (d : DS) (line : String) : DS × String :=
      | some (out, rest) =>
        (d, "{\"ok\":true,\"fits\":true,\"left\":" ++ toString rest.length ++ ",\"out\":" ++
          jarr (out.map (fun ps => jarr (ps.map (fun p => jarr [toString p.id, toString p.prio, jarr (p.protos.map toString)])))) ++ "}"))
+  | "csv-read" :: rest =>
+    (d, match Lean.Json.parse (" ".intercalate rest) >>= DJ.csvRows with
+        | .error e => "{\"ok\":false,\"err\":\"parse\",\"detail\":" ++ (Lean.Json.str e).compress ++ "}"
+        | .ok rows => match Csv.fromRows rows with
+          | .error e => "{\"ok\":true,\"error\":" ++ jstr (reprStr e) ++ "}"
+          | .ok ps => "{\"ok\":true,\"pipes\":" ++ DJ.showPipes ps ++ "}")
+  | "csv-write" :: rest =>
+    (d, match Lean.Json.parse (" ".intercalate rest) >>= DJ.csvPipes with
+        | .error e => "{\"ok\":false,\"err\":\"parse\",\"detail\":" ++ (Lean.Json.str e).compress ++ "}"
+        | .ok ps => "{\"ok\":true,\"rows\":" ++ DJ.showRows (Csv.toRows ps) ++ "}")
   | ["reset"] => ({}, "{\"ok\":true}")
   | "check" :: which :: rest =>
     let text := " ".intercalate rest
